@@ -601,14 +601,20 @@ def checkC16 (obs : String) : Option String :=
     | some p =>
       let sym (s : Text) := Scheme.SExp.sym s
       if m0 ≠ "none" then
-        -- framed: the one frame procedure is the only place that displays, under the one mutex
-        let frameWant := Scheme.SExp.list [sym (cl!"lambda"), .list [sym (cl!"s"), sym (cl!"d")],
-          .list [sym (cl!"with-mutex"), sym (cl!"%lf3:mutex:1"),
-            .list [sym (cl!"display"), sym (cl!"s"), sym (cl!"%lf3:port:0")],
-            .list [sym (cl!"display"), .list [sym (cl!"string"), .chr 0x1e, sym (cl!"d")], sym (cl!"%lf3:port:0")]]]
-        let frameOk := p.bindings.any fun (n, ini) => n = cl!"%lf3:frame:2" && ini == frameWant
-        let mutexOk := p.bindings.any fun (n, ini) => n = cl!"%lf3:mutex:1" && ini == .list [sym (cl!"make-mutex")]
-        let displaysElsewhere := (p.bindings.filter (fun b => b.1 ≠ cl!"%lf3:frame:2")).any fun (_, ini) =>
+        -- framed: ONE procedure (whatever its parameters are called) writes payload and tag under one mutex object on
+        -- one port, and it is the only place that displays
+        let isMutex (nm : Text) := p.bindings.any fun b => b.1 = nm && b.2 == .list [sym (cl!"make-mutex")]
+        let isFrame (ini : Scheme.SExp) : Bool :=
+          match ini with
+          | .list [.sym lam, .list [.sym a, .sym b],
+              .list [.sym wm, .sym m, .list [.sym d1, .sym a', .sym port], .list [.sym d2, .list [.sym str, .chr 0x1e, .sym b'], .sym port']]] =>
+            lam = cl!"lambda" && wm = cl!"with-mutex" && d1 = cl!"display" && d2 = cl!"display" && str = cl!"string"
+              && a = a' && b = b' && a ≠ b && port = port' && isMutex m && (p.bindings.any fun x => x.1 = port)
+          | _ => false
+        let frames := p.bindings.filter fun b => isFrame b.2
+        let frameOk := frames.length == 1
+        let mutexOk := true
+        let displaysElsewhere := (p.bindings.filter (fun b => !isFrame b.2)).any fun (_, ini) =>
           (Scheme.symbols ini).any (· = cl!"display")
         let bodyDisplays := (Scheme.symbols p.body).any (· = cl!"display")
         let rawPrinter := p.bindings.any fun (_, ini) => (Scheme.symbols ini).any (· = cl!"make-printer")
@@ -627,12 +633,11 @@ def checkC16 (obs : String) : Option String :=
             if mp = cl!"make-printer" then
               match args with
               | [.sym port, .sym mutex, _] =>
-                let portN := port.drop 10
-                let mutexN := mutex.drop 11
-                if isPrefix (cl!"%lf3:port:") port && isPrefix (cl!"%lf3:mutex:") mutex
-                    && decVal mutexN = decVal portN + 1
-                    && (p.bindings.any fun b => b.1 = mutex && b.2 == .list [sym (cl!"make-mutex")]) then none
-                else some ("printer-mutex-not-the-ports-mutex " ++ String.ofList n)
+                -- the mutex must be a mutex and the port a bound port; that printers on one port object hold one
+                -- and the same mutex object is checked below on the resolved objects (names and numbering are free)
+                if (p.bindings.any fun b => b.1 = mutex && b.2 == .list [sym (cl!"make-mutex")])
+                    && (p.bindings.any fun b => b.1 = port) then none
+                else some ("printer-mutex-not-a-mutex-or-port-unbound " ++ String.ofList n)
               | _ => some ("printer-shape " ++ String.ofList n)
             else if isPrefix (cl!"%lf3:print:") n then
               -- a record must be written inside ONE critical section: only make-printer gives that
